@@ -162,6 +162,7 @@ func (fr *Frame) step(st *State, ins ssa.Instruction) {
 			x.unsupported(fr, st, ins, fmt.Sprint(r))
 		}
 	}()
+	x.vc.pcNow = st.pc
 	if fr.depth == 0 && fr.contract != nil && len(fr.contract.Reach) > 0 {
 		fr.reachCheck(st, ins)
 	}
@@ -296,6 +297,9 @@ func (fr *Frame) reachCheck(st *State, ins ssa.Instruction) {
 			if !strings.HasSuffix(rc.Stmt, "...") || !strings.HasPrefix(txt, strings.TrimSuffix(rc.Stmt, "...")) {
 				continue
 			}
+		}
+		if rc.Nth > 0 && x.w.stmtOrdinal(fr.fn, x.w.stmtPos[pos], txt) != rc.Nth {
+			continue
 		}
 		key := fmt.Sprintf("%s@%d", rc.Stmt, ins.Block().Index)
 		if fr.reachDone == nil {
